@@ -51,7 +51,8 @@ REQUIRED_COUNTERS = ['optimality_syndromes_checked', 'coset_tables_built',
                      'sweepmatch_single_qubit_errors',
                      'deformed_weight_configs', 'uf_weight3_compact_errors',
                      'matching_setups_one_sector_or_explicit_weights',
-                     'syndromes_given_in_another_dtype']
+                     'syndromes_given_in_another_dtype',
+                     'user_defined_noise_models']
 SHARD_TIMEOUT = {'quick': 900, 'thorough': 5400}
 EXHAUSTIVE = True
 EXHAUSTIVE_SCOPE = ('per (decoder, lattice) block listed in '
@@ -185,6 +186,34 @@ def coset_minimum(Hrows, w, n):
     return dict(zip(syn_s[first].tolist(), w_s[first].tolist()))
 
 
+def user_model(kind, direction, n):
+    """A user's noise model with qubit-dependent rates (all flip marginals
+    below 1/2)."""
+    from panqec.error_models import PauliErrorModel, BaseErrorModel
+    scale = np.random.default_rng([n, len(kind)]).uniform(0.2, 1.8, size=n)
+
+    def table(rx, ry, rz, rate):
+        px, py, pz = (rate * r * scale for r in (rx, ry, rz))
+        return 1 - px - py - pz, px, py, pz
+
+    if kind == 'user-pauli-subclass':
+        class DriftingPauliNoise(PauliErrorModel):
+            def probability_distribution(self, code, error_rate):
+                return table(*self.direction, error_rate)
+        return DriftingPauliNoise(*direction)
+
+    class DriftingNoise(BaseErrorModel):
+        label = 'drifting'
+        params = {}
+
+        def generate(self, code, error_rate, rng=None):
+            raise NotImplementedError
+
+        def probability_distribution(self, code, error_rate):
+            return table(*direction, error_rate)
+    return DriftingNoise()
+
+
 def run_opt(task, out):
     from panqec.decoders import MatchingDecoder
     from panqec.error_models import PauliErrorModel
@@ -212,10 +241,21 @@ def run_opt(task, out):
                                                                'biasZ3'):
                     continue
                 configs.append((nm, d, nd, p))
+    # noise models written by a user (the documented extension point):
+    # qubit-dependent rates, as a subclass of PauliErrorModel that overrides
+    # probability_distribution and as a model built on BaseErrorModel
+    configs.append(('user-pauli-subclass', (1 / 3, 1 / 3, 1 / 3),
+                    (None, {}), rates[0]))
+    configs.append(('user-base-subclass', (0.2, 0.2, 0.6), (None, {}),
+                    rates[0]))
     for nm, direction, (ndn, ndk), p in configs:
         em = PauliErrorModel(*direction, deformation_name=ndn,
                              deformation_kwargs=dict(ndk) if ndk else None)
         ref = ref_channel(code, cls, direction, p, ndn, ndk)
+        if nm.startswith('user-'):
+            em = user_model(nm, direction, n)
+            ref = np.stack(em.probability_distribution(code, p), axis=1)
+            out.count('user_defined_noise_models')
         qx = ref[:, 1] + ref[:, 2]
         qz = ref[:, 3] + ref[:, 2]
         if max(qx.max(), qz.max()) >= 0.5 or min(qx.min(), qz.min()) <= 0:
